@@ -417,7 +417,7 @@ def run(run):
     targets = sorted({TARGET_OF.get(s, "all") for s in failing_structs})
     if not targets or "all" in targets:
         targets = ["all"]
-    budget = 40 if run.tier == "quick" else 600
+    budget = run.scaled(40) if run.tier == "quick" else 600     # anchor drift: escalated budget
     if fails:
         budget = int(budget * 1.5)
     stats, found, samples, crashes = dynamic_leg(run, budget, targets, exceptions)
